@@ -112,3 +112,11 @@ pub assume_specification[ f64::floor ](a: f64) -> (r: f64)
     ensures r == f64_floor(a);
 pub assume_specification[ f64::ceil ](a: f64) -> (r: f64)
     ensures r == f64_ceil(a);
+
+// unary minus on floats is rewritten to this function (Verus does not support float negation): `-x` -> fneg(x)  (R17)
+#[verifier::external_body]
+pub fn fneg(x: f64) -> (r: f64)
+    ensures rv(r) == -rv(x), nan(r) == nan(x),
+{ -x }
+pub assume_specification[ f64::mul_add ](a: f64, b: f64, c: f64) -> (r: f64)
+    ensures rv(r) == rv(a) * rv(b) + rv(c), nan(r) == (nan(a) || nan(b) || nan(c));
